@@ -306,6 +306,19 @@ func c09Run(c *mon.Ctx, csAny any) {
 			c.Fail("HashToScalar is not deterministic in (msg, DST) contents", "h2s-nondeterministic", nil)
 		}
 
+		// the results belong to the caller: it changes both in place (a nonce derived from the hash), then asks again
+		s2.Add(secp256k1.NewScalar().One())
+		s.Multiply(s2)
+		s2.Zero()
+
+		s3 := secp256k1.HashToScalar(msg, dst)
+		c.Eval(1)
+		c.Count("asked-again-after-results-were-changed")
+
+		if got := mon.ScalVal(s3); got.Cmp(want) != 0 || !mon.ScalCanonical(s3) {
+			c.Fail(fmt.Sprintf("HashToScalar(msg[%d], dst[%d]) = %x, want %x, on the third identical call, after the caller changed the first two results in place", len(msg), len(dst), got, want), "h2s-value-after-results-changed", nil)
+		}
+
 		c.Seen("hash", cs.H.Msg, cs.H.Dst, cs.H.NilMsg)
 	case "reduce":
 		b := mon.UnH(cs.B48)
